@@ -7,6 +7,7 @@
 (*         risk   utils.risk_to_qty(C, r, E, S, precision=p, fee_rate=F) -> q   *)
 (*         sum / sub   utils.sum_floats / subtract_floats on 8-decimal operands *)
 (*         rdown  helpers.round_decimals_down(x, p);  rqty  round_qty_for_live_mode *)
+(*         rdownb / rqtyb  the same helpers on inputs next to a step boundary      *)
 (*         lsl    utils.limit_stop_loss;   erisk  utils.estimate_risk           *)
 (* acc fields: was an order for the quantity at that price accepted by a fresh  *)
 (* real futures / spot exchange object holding exactly the capital ("yes",      *)
@@ -58,6 +59,19 @@ RoundVerdict(e) ==
   ELSE IF e.kr < kx - 1 THEN "more-than-one-step-below-exact"
   ELSE "ok"
 
+\* boundary family: the input lies next to the step boundary B = n / 10^p (a tail of nines / zeros beyond the precision,
+\* or a few ulps either side).  rx, rr, rb, rbl, ru: ranks (exact rational order) of the input, the result, B, the
+\* previous boundary (n - 1) / 10^p and the minimum unit 10^-p.  adj: the input is the float immediately below B.
+RoundBVerdict(e) ==
+  LET kx == IF e.rx >= e.rb THEN e.n ELSE e.n - 1  rq == e.k = "rqtyb" IN
+  IF e.rx < e.rbl THEN "machinery:input-outside-the-boundary-family"
+  ELSE IF e.exc # "none" THEN "raises:" \o e.exc
+  ELSE IF rq /\ kx = 0 THEN (IF e.rr = e.ru THEN "ok" ELSE "zero-result-not-the-minimum-unit")
+  ELSE IF e.rr > e.rx THEN (IF e.adj THEN "rounds-up:input-one-ulp-below-a-step" ELSE "rounds-up")
+  ELSE IF ~e.onlat THEN "not-a-multiple-of-the-precision-step"
+  ELSE IF e.kr < kx - 1 THEN "more-than-one-step-below-exact"
+  ELSE "ok"
+
 \* entry E, stop S in cents, cap pct in percent, result R in 10^-4
 LslVerdict(e) ==
   LET dist == Abs(e.E * 100 - e.R) IN
@@ -70,6 +84,7 @@ EriskVerdict(e) == IF e.exc # "none" THEN "raises:" \o e.exc ELSE IF e.R # Abs(e
 
 Verdict(e) == CASE e.k = "size" -> SizeVerdict(e) [] e.k = "risk" -> RiskVerdict(e)
                 [] e.k \in {"sum", "sub"} -> DecVerdict(e) [] e.k \in {"rdown", "rqty"} -> RoundVerdict(e)
+                [] e.k \in {"rdownb", "rqtyb"} -> RoundBVerdict(e)
                 [] e.k = "lsl" -> LslVerdict(e) [] e.k = "erisk" -> EriskVerdict(e)
                 [] OTHER -> "unknown-record-kind"
 Step == /\ l <= Len(Ev(tid))
